@@ -290,7 +290,7 @@ def fit_ensures(v, old, result, semi=False):
         ("costs_range", forall(0, n, lambda x: conj(le(0, N[x].cost), lt(N[x].cost, FLOAT_MAX)))),
         ("plabel_nonneg", forall(0, n, lambda x: ge(N[x].predicted_label, 0))),
         ("fresh_relevance", forall(0, n, lambda x: eq(N[x].relevant, IRRELEVANT))),
-    ]
+    ] + ([("acyclic_rank", acyclic_rank(sg, v.ghost("g_rank", "list[int]")))] if MODE.kind == "sym" else [])
 
 
 contract(S + "fit",
@@ -327,13 +327,67 @@ def preds_valid(sg):
     return forall(0, n, lambda x: conj(le(NIL, sg.nodes[x].pred), lt(sg.nodes[x].pred, n)))
 
 
+def acyclic_rank(sg, rk):
+    """the predecessor map is well-founded: a rank strictly decreases along every predecessor link"""
+    n = length(sg.nodes)
+    return forall(0, n, lambda x: conj(ge(rk[x], 0), implies(ne(sg.nodes[x].pred, NIL), lt(rk[sg.nodes[x].pred], rk[x]))))
+
+
+def mn_inv(v, old, le_):
+    sg, o = v.self, old.self
+    n = length(sg.nodes)
+    N = sg.nodes
+    rk = v.ghost("g_rank", "list[int]")
+    path, ln, on, at = v.g_path, v.g_len, v.g_on, v.g_at
+    return [
+        ("i", conj(le(0, v.i), lt(v.i, n))), ("preds", preds_valid(sg)), ("rank", acyclic_rank(sg, rk)),
+        ("static", forall(0, n, lambda x: eq(N[x].pred, o.nodes[x].pred))),
+        ("path", conj(ge(ln, 0),
+                      implies(eq(ln, 0), eq(v.i, old.i)),
+                      implies(gt(ln, 0), conj(eq(path[0], old.i), eq(v.i, N[path[ln - 1]].pred))),
+                      forall(0, ln, lambda t: conj(le(0, path[t]), lt(path[t], n), ne(N[path[t]].pred, NIL),
+                                                   eq(on[path[t]], 1), eq(at[path[t]], t))),
+                      forall(0, ln - 1, lambda t: eq(N[path[t]].pred, path[t + 1])),
+                      # ranks strictly decrease along the path, so the current node has not been visited before
+                      forall(0, ln, lambda t: lt(rk[v.i], rk[path[t]])))),
+        ("on", forall(0, n, lambda x: disj(eq(on[x], 0), conj(eq(on[x], 1), le(0, at[x]), lt(at[x], ln),
+                                                              eq(path[at[x]], x))))),
+        ("flags", forall(0, n, lambda x: eq(N[x].relevant, ite(eq(on[x], 1), RELEVANT, o.nodes[x].relevant)))),
+    ]
+
+
+def mn_ensures(v, old, result):
+    sg, o = v.self, old.self
+    n = length(sg.nodes)
+    N = sg.nodes
+    if MODE.kind != "sym":
+        return []
+    path, ln = v.ghost("g_path", "list[int]"), v.ghost("g_len", "int")
+    on, at = v.ghost("g_on", "list[int]"), v.ghost("g_at", "list[int]")
+    return [
+        # the chain from i up to its root: path[0] = i, path[t+1] = pred(path[t]), the last one has no predecessor
+        ("chain", conj(ge(ln, 1), eq(path[0], old.i), eq(N[path[ln - 1]].pred, NIL),
+                       forall(0, ln, lambda t: conj(le(0, path[t]), lt(path[t], n))),
+                       forall(0, ln - 1, lambda t: eq(N[path[t]].pred, path[t + 1])))),
+        # exactly the samples of the chain are newly flagged, nothing else changes
+        ("flags", forall(0, n, lambda x: eq(N[x].relevant, ite(eq(on[x], 1), RELEVANT, o.nodes[x].relevant)))),
+        ("on_chain_iff", conj(forall(0, ln, lambda t: eq(on[path[t]], 1)),
+                              forall(0, n, lambda x: disj(eq(on[x], 0), conj(eq(on[x], 1), le(0, at[x]), lt(at[x], ln),
+                                                                             eq(path[at[x]], x)))))),
+    ]
+
+
 contract("opfython.core.subgraph.Subgraph.mark_nodes", params={"self": "obj:Subgraph", "i": "int"},
          props=["C03", "C17", "C09"],
-         requires=lambda v: [("i", conj(le(0, v.i), lt(v.i, length(v.self.nodes)))), ("preds", preds_valid(v.self))],
-         ensures=lambda v, old, result: [],
+         requires=lambda v: [("i", conj(le(0, v.i), lt(v.i, length(v.self.nodes)))), ("preds", preds_valid(v.self)),
+                             ("acyclic", acyclic_rank(v.self, v.ghost("g_rank", "list[int]")))],
+         ensures=mn_ensures,
          modifies=["self.nodes.relevant"],
-         loops=[LoopSpec("while", inv=lambda v, old, le_: [
-             ("i", conj(le(0, v.i), lt(v.i, length(v.self.nodes)))), ("preds", preds_valid(v.self))])])
+         ghost=[("entry", "g_len = 0\ng_path = [0 for _ in range(self.n_nodes)]\n"
+                          "g_on = [0 for _ in range(self.n_nodes)]\ng_at = [0 for _ in range(self.n_nodes)]"),
+                ("after:self.nodes[i].relevant = c.RELEVANT",
+                 "g_path[g_len] = i\ng_on[i] = 1\ng_at[i] = g_len\ng_len = g_len + 1")],
+         loops=[LoopSpec("while", inv=mn_inv, decreases=lambda v: v.ghost("g_rank", "list[int]")[v.i])])
 
 
 def WT(m, t, ps, i):
@@ -364,9 +418,14 @@ def fitted(m):
         preds_valid(sg))
 
 
+def fitted_acyclic(v):
+    return acyclic_rank(v.self.subgraph, v.ghost("g_rank", "list[int]"))
+
+
 def predict_requires(v):
     # no symmetry here: the statement fixes the argument order d(t, x) and quantifies over every metric
-    return [("fitted", fitted(v.self)), ("metric", metric_hyp(symmetric=False)), ("nonempty", ge(length(v.X_val), 1)),
+    return [("fitted", fitted(v.self)), ("acyclic", fitted_acyclic(v)),
+            ("metric", metric_hyp(symmetric=False)), ("nonempty", ge(length(v.X_val), 1)),
             ("index_ok", implies(v.I_val.present,
                                  conj(ge(length(v.I_val.value), length(v.X_val)),
                                       forall(0, length(v.X_val), lambda i: ge(v.I_val[i], 0)))))]
@@ -391,7 +450,7 @@ def predict_outer(v, old, le_):
     m, sg, ps = v.self, v.self.subgraph, v.pred_subgraph
     npred = length(ps.nodes)
     return [
-        ("fitted", fitted(m)),
+        ("fitted", fitted(m)), ("acyclic", fitted_acyclic(v)),
         ("npred", conj(eq(npred, length(v.X_val)), eq(length(v.g_win), npred))),
         ("done", forall(0, v.i, lambda a: conj(optimal_for(m, ps, a, v.g_win[a]),
                                                eq(ps.nodes[a].predicted_label,
@@ -412,7 +471,7 @@ def predict_inner(v, old, le_):
         ("witness", conj(le(0, t), lt(t, n), eq(v.min_cost, vmax(N[t].cost, WT(m, t, ps, i))),
                          eq(v.current_label, N[t].predicted_label))),
         ("prefix_min", forall(0, j + 1, lambda r: le(v.min_cost, vmax(N[ordl[r]].cost, WT(m, ordl[r], ps, i))))),
-        ("conqueror", conj(le(-1, v.conqueror), lt(v.conqueror, n))),
+        ("conqueror", conj(le(0, v.conqueror), lt(v.conqueror, n), eq(v.conqueror, t))),
     ]
 
 
